@@ -57,6 +57,31 @@ Proof.
 Qed.
 Print Assumptions drf_results.
 
+(* Memo cells only ever grow.  Under the same footprint hypothesis (every
+   write to a memo cell writes its memo value: wr_ok inside fp_ok), a memo
+   cell that is filled stays filled with the same value under EVERY schedule:
+   nothing a thread is about to read back is ever removed or replaced.  A
+   bounded cache that evicts or clears entries violates exactly this
+   hypothesis; the harness checks it on every measured footprint
+   (fp_monotone, part of fp_spec_ok). *)
+Theorem memo_cells_monotone :
+  forall (loc val P : Type) (loc_eqb : loc -> loc -> bool),
+  (forall a b, loc_eqb a b = true <-> a = b) ->
+  forall (vnone : val) (memo : loc -> option val) (next : P -> @action loc val P)
+         (F : nat -> fprint loc) (Inv : nat -> P -> Prop),
+  (forall i, fp_ok loc val P memo next (F i) (Inv i)) ->
+  forall (sched : list nat) (s0 : store loc val) (ps0 : list P),
+  mok loc val vnone memo s0 ->
+  (forall i p, nth_error ps0 i = Some p -> Inv i p) ->
+  forall l mv, memo l = Some mv -> s0 l = mv ->
+    fst (exec loc val P loc_eqb next sched (s0, ps0)) l = mv.
+Proof.
+  intros loc val P loc_eqb Hspec vnone memo next F Inv Hfp sched s0 ps0 Hm Hi l mv M E.
+  apply (memo_cells_monotone_l loc val P loc_eqb Hspec vnone memo next F Inv Hfp sched (s0, ps0)
+           (conj Hm Hi) l mv M E).
+Qed.
+Print Assumptions memo_cells_monotone.
+
 (* The sequential core of the above: for one thread, the result does not
    depend on which memo cells happen to be filled (stores related by [sim]
    agree on everything the thread reads except that memo cells may be empty
@@ -238,6 +263,17 @@ Theorem measured_footprint_no_class_level :
     /\ binding_owned (ow_loc w) = false.
 Proof. exact measured_footprint_owned_l. Qed.
 Print Assumptions measured_footprint_no_class_level.
+
+(* ... and memo cells: in a measured footprint that meets fp_spec_ok every
+   write to TypedContent.resolved_cache / Factory.cache is a fill of an absent
+   entry or an overwrite with an equivalent value -- never a deletion
+   (del / pop / clear / eviction) and never a different value. *)
+Theorem measured_memo_writes_monotone :
+  forall x, fp_spec_ok x = true ->
+  forall w, In w (fc_writes x ++ fc_transient x) ->
+    is_cache_loc (ow_loc w) = true -> (ow_kind w <= 1)%N.
+Proof. exact measured_memo_monotone_l. Qed.
+Print Assumptions measured_memo_writes_monotone.
 
 (* No per-binding state.  Binding objects are shared by all methods of a
    service (wsdl.py: Definitions.add_methods) and by all threads; the
